@@ -17,6 +17,11 @@ checks = {
    text="Proof that the byte stream hashed into the cache key equals a layout spec function of the abstract target state only (label, command, multiset of inputs, multiset of declared outputs incl. bin output, multiset of dependency digests, fingerprint map, platform unless multiplatform-cache; file contents in sorted path order), for every slice order and every map iteration order (the map-range loop is verified for an arbitrary pick of the next key). Hence no dependence on declaration/glob/map order, workspace location, time, host or scheduling. The injectivity half (no ambiguous concatenation) is decided per component boundary by lemmas over the layout spec; on the current tree four boundaries are refuted, each refutation is replayed on the real code under xxh3 and sha256 and recorded as a known finding, so the level is 'other', not 'proof'.",
    design_ref="DESIGN.md section 7 (C09), section 14",
    note="Assumed: hash functions uninterpreted (collision-freedom is the stated assumption for key equality => stream equality); Bag-theory axioms and sort/Join contracts in specs/30_hashing.spec; ghost stream semantics of the two Hasher implementations; file system unchanged while hashing (A-fs); protobuf marshalling in getOutputHash is not under contract yet."),
+ "C16": dict(
+   category="other",
+   text="Scope claimed: 'never a panic' for the repository's own code on the BUILD-loading path (packages loading, output, model), for all inputs: a zero-annotation sweep generates a bounds / nil-map / type-assertion / division / explicit-panic obligation for every such instruction and the ones listed in the baseline are discharged; the Makefile and script annotation parsers carry contracts (line slices grow in lock-step; handleTarget's index preconditions proved at the call sites). One defect found this way was repaired (fix: commit 7f5b5ee). Cross-format agreement, determinism across worker counts and hangs are not decided by this check (no contract within reach expresses the semantics of the third-party parsers).",
+   design_ref="DESIGN.md section 7 (C16), section 14",
+   note="Third-party parser calls are havoc (arbitrary results of the right Go type); capacity of slices is not modelled (slice expressions are checked against len, which is stronger than Go requires); nil-pointer dereference is not among the generated obligations."),
 }
 
 not_applicable = {
